@@ -161,6 +161,18 @@ type c09EnumCase struct {
 
 var c09EnumBases []*Scenario
 
+// c09Always: the flag values that mean something in one of the protocols (compressed, Connect
+// end-of-stream, gRPC-Web trailers, and their combinations); they are run in full in both tiers.
+var c09Always []c09EnumCase
+
+func specialFlag(v int) bool {
+	switch v {
+	case 0, 1, 2, 3, 0x80, 0x81, 0x82, 0x83, 0xff, 4:
+		return true
+	}
+	return false
+}
+
 func c09Family() []c09EnumCase {
 	var out []c09EnumCase
 	for _, form := range allForms {
@@ -198,7 +210,12 @@ func c09Family() []c09EnumCase {
 					if formEnveloped(form) {
 						for fi := range frameOffsets(out0.Sent.Body) {
 							for v := 0; v < 256; v++ {
-								out = append(out, c09EnumCase{idx, true, Fault{Kind: FaultFlag, At: fi, Val: v}})
+								cs := c09EnumCase{idx, true, Fault{Kind: FaultFlag, At: fi, Val: v}}
+								if specialFlag(v) {
+									c09Always = append(c09Always, cs)
+								} else {
+									out = append(out, cs)
+								}
 							}
 						}
 					}
@@ -212,7 +229,12 @@ func c09Family() []c09EnumCase {
 					if v.Protocol == ProtoGRPC || v.Protocol == ProtoGRPCWeb || (v.Protocol == ProtoConnect && v.Sub == "stream") {
 						for fi := range frameOffsets(resp.Body) {
 							for fv := 0; fv < 256; fv++ {
-								out = append(out, c09EnumCase{idx, false, Fault{Kind: FaultFlag, At: fi, Val: fv}})
+								cs := c09EnumCase{idx, false, Fault{Kind: FaultFlag, At: fi, Val: fv}}
+								if specialFlag(fv) {
+									c09Always = append(c09Always, cs)
+								} else {
+									out = append(out, cs)
+								}
 							}
 						}
 					}
@@ -225,6 +247,19 @@ func c09Family() []c09EnumCase {
 
 func enumerateC09(t *testing.T) {
 	fam := c09Family()
+	run := func(c c09EnumCase) (any, *CheckResult) {
+		sc := cloneScenario(c09EnumBases[c.base])
+		f := c.fault
+		if c.onRequest {
+			sc.Client.Fault = &f
+		} else {
+			sc.Backend.Fault = &f
+		}
+		return sc, checkC09(sc)
+	}
+	enumerate(t, "C09", "protocol_flag_values",
+		"the same fixed exchanges: the flag byte of every frame of request and response set to each value that means something in one of the protocols (0, 1, 2, 3, 4, 0x80-0x83, 0xff)",
+		len(c09Always), 1, func(i int) (any, *CheckResult) { return run(c09Always[i]) })
 	enumerate(t, "C09", "cut_points_and_flags",
 		fmt.Sprintf("%d fixed exchanges (6 client forms x 4 single target protocols x target codec proto/json, gzip offered, up to 4 messages each way): the request body and the response body cut after every byte offset, and the flag byte of every frame set to every value 0-255", len(c09EnumBases)),
 		len(fam), 8, func(i int) (any, *CheckResult) {
